@@ -201,6 +201,27 @@ PROPS = {
         note="Lean kernel + propext/Classical.choice/Quot.sound; model tied by sampling; defect D8 repaired by a fix: commit.",
         technique="Lean 4 theorems over an executable model + differential correspondence with the Go code",
     ),
+    "C15": dict(
+        modules=["SpatialId.Props.C15", "SpatialId.Props.C01", "SpatialId.Props.C02", "SpatialId.Props.C03", "SpatialId.Props.C04",
+                 "SpatialId.Props.C05", "SpatialId.Props.C08", "SpatialId.Props.C10", "SpatialId.Props.C11", "SpatialId.Props.C13"],
+        families=[("reject", 40000, 300000), ("newpt", 15000, 100000), ("points", 5000, 40000), ("tiles", 1000, 5000),
+                  ("qv", 1500, 8000)],
+        trusted_base=COMMON_TB + F64_TB + ["Go strconv.ParseInt/Atoi and strings.Split semantics are modelled by parseInt64/splitSlash "
+                                            "and compared on every malformed case, not proved"],
+        assumptions=["zoom fields inside otherwise well-formed IDs stay within 0..35 (the property's own restriction)"],
+        claim="Theorems (Props/C15.lean and the rejection theorems of C01-C13): wrong arity or a non-int64 field makes an ID "
+              "malformed; every list operation fails as a whole on a malformed element, an out-of-range zoom, a nil point, an "
+              "unknown option or negative layer counts; the shift helpers return empty IDs; accepted points satisfy |lon| <= 180 "
+              "and |stored lat| <= 85.0511287798 and keep lon/alt unchanged; no model function can produce a panic "
+              "(never_panic, overlapExt_no_panic). The op family reject drives 19 API operations with about 50% malformed "
+              "strings; the driver checks on the implementation's own answer that a malformed ID never yields a non-error "
+              "result and that the latitude is cut toward zero by less than 1e-10 degrees.",
+        note="'no string panics' is a theorem about the model; for the Go code it is as strong as the malformed generator "
+             "(recover maps panics to PANIC, which no model produces). Defects D3, D6, D7, D8, D13 repaired by fix: commits; "
+             "D14 (array overlap early return) and D17 (SetLat rounding) are known findings. Line/corridor error paths are "
+             "covered under C06/C14.",
+        technique="Lean 4 theorems over executable models + malformed-input differential stream + checker on implementation answers",
+    ),
     "C20": dict(
         modules=["SpatialId.Props.C20"],
         families=[("sets", 30000, 200000), ("ashift", 20000, 200000), ("combLattice", 1, 1)],
